@@ -1,9 +1,11 @@
 //! Worlds: one interpreter + monitor set per primitive.
 
+pub mod collections;
 pub mod event;
 pub mod mpmc;
 pub mod mutex;
 pub mod oneshot;
+pub mod ringbuf;
 pub mod semaphore;
 pub mod state;
 pub mod timer;
@@ -11,7 +13,7 @@ pub mod timer;
 use crate::common::World;
 
 pub fn all() -> Vec<&'static dyn World> {
-    vec![&mutex::MutexWorld, &semaphore::SemaphoreWorld, &event::EventWorld, &timer::TimerWorld, &oneshot::OneshotWorld, &state::StateWorld, &mpmc::MpmcWorld]
+    vec![&mutex::MutexWorld, &semaphore::SemaphoreWorld, &event::EventWorld, &timer::TimerWorld, &oneshot::OneshotWorld, &state::StateWorld, &mpmc::MpmcWorld, &ringbuf::RingBufWorld, &collections::ListWorld, &collections::HeapWorld]
 }
 
 pub fn by_name(name: &str) -> Option<&'static dyn World> {
